@@ -2,6 +2,7 @@
 #[cfg(kani)]
 pub mod verif_kani {
     use super::*;
+    #[allow(unused_imports)] use crate::LARGE_SAFE_PRIME_LITTLE_ENDIAN;
     use crate::error::InvalidPublicKeyError;
 
     /// C04: of the 2^256 encodings exactly zero and N are refused, each with its own error kind.
